@@ -167,6 +167,8 @@ fn execute<S: Sys, T>(sc: &Scope, hist: &[Op], verify_last: bool, f: impl FnOnce
         for (i, op) in hist.iter().enumerate() {
             if verify_last && i + 1 == hist.len() {
                 s.set_verify(true);
+                // coverage counters count transitions, not replayed prefixes
+                let _ = s.take_cov();
             }
             s.apply(*op)?;
         }
